@@ -330,7 +330,10 @@ class EdgeQLSourceGenerator(codegen.SourceGenerator):
 
         self.new_lines = 1
         self._write_keywords('SET ')
-        self._visit_shape(node.shape)
+        if node.shape:
+            self._visit_shape(node.shape)
+        else:
+            self.write('{}')
 
         if parenthesise:
             self.write(')')
